@@ -333,7 +333,12 @@ def impl_matrix(case):
     ops = [[EinsumOp(torch.tensor(_block_dense(b, n), dtype=torch.float64), '... i j, ... j -> ... i') for b in row] for row in case['blocks']]
     M = LinearOperatorMatrix(ops)
     v0 = [torch.tensor(v, dtype=torch.float64) * 2.0 ** case['scale_exp'] for v in case['v0']]
-    res = M.operator_norm(*v0, dim=None, max_iterations=4, relative_tolerance=0.0, absolute_tolerance=0.0)
+    old = torch.get_default_dtype()
+    torch.set_default_dtype(torch.float64)  # see _run
+    try:
+        res = M.operator_norm(*v0, dim=None, max_iterations=4, relative_tolerance=2.0 ** -13, absolute_tolerance=2.0 ** -17)
+    finally:
+        torch.set_default_dtype(old)
     return {'ret': float(res.flatten()[0])}
 
 
